@@ -1,4 +1,5 @@
 //! vh-driver: conformance harness for the `scylla` crate (built with --cfg scylla_verif).
+mod c02;
 mod c06;
 mod c13;
 mod c15;
@@ -32,6 +33,9 @@ fn main() {
     }
     let rest = &args[2..];
     let rc = match (args[0].as_str(), args[1].as_str()) {
+        ("c02", "map") => c02::cmd_map(rest),
+        ("c02", "exhaust") => c02::cmd_exhaust(rest),
+        ("c02", "router") => c02::cmd_router(rest),
         ("c06", "walk") => c06::cmd_walk(rest),
         ("c13", "run") => c13::cmd_run(rest),
         ("c15", "walk") => c15::cmd_walk(rest),
